@@ -37,7 +37,8 @@ def run(rep, tier):
                 rep.violation("glob/whole-value/expected-%s" % c["whole"], {"pattern": vlib.cp_to_str(c["p"]), "text": vlib.cp_to_str(c["t"]), "observed": o["whole"]})
             cmp_word(rep, c, c["word"], o["word"], "word")
             if "dn" in o:
-                cmp_word(rep, c, c["word"], o["dn"], "display-name")
+                cmp_word(rep, c, c["dn"], o["dn"], "display-name")
+            if "content_rule" in o:
                 cmp_word(rep, c, c["word"], o["content_rule"], "content-rule")
             if not c["lit"] or c["word"] == "must":
                 nontriv += 1
@@ -87,7 +88,7 @@ def run(rep, tier):
     rep.cov["exhaustive"] = True
     rep.cov["rule"] = RULE
     rep.assumptions += ["a non-word character inside a word match serving as its own boundary is UNSPEC; the empty pattern is UNSPEC",
-                        "display names are matched as literals only (names containing * or ? are not generated)"]
+                        "display names are literal text: a name containing * or ? is looked for as those characters (DisplayNameVerdict)"]
 
 
 def replay(rep, path):
